@@ -48,6 +48,15 @@ func Dir() string {
 	return "/verif"
 }
 
+// outDir is where evidence/ and replays/ live: /verif, or build/scratch when VERIF_NOEVIDENCE is set (mutation runs
+// must not overwrite the evidence of the unchanged tree).
+func outDir() string {
+	if os.Getenv("VERIF_NOEVIDENCE") != "" {
+		return filepath.Join(Dir(), "build", "scratch")
+	}
+	return Dir()
+}
+
 // Tier returns quick|thorough.
 func Tier() string {
 	t := os.Getenv("VERIF_TIER")
@@ -151,15 +160,15 @@ func (r *Run) Violation(key string, artefact any) bool {
 	}
 	r.seenKeys[key] = true
 	r.violations++
-	dir := filepath.Join(Dir(), "replays", r.ID)
+	dir := filepath.Join(outDir(), "replays", r.ID)
 	_ = os.MkdirAll(dir, 0o755)
 	p := filepath.Join(dir, fmt.Sprintf("%d.json", len(r.seenKeys)))
 	b, _ := json.MarshalIndent(map[string]any{"property": r.ID, "key": key, "artefact": artefact}, "", " ")
-	if len(r.seenKeys) <= 10 {
+	if len(r.seenKeys) <= 40 {
 		_ = os.WriteFile(p, b, 0o644)
 		fmt.Printf("VIOLATION property=%s replay=%s\n", r.ID, p)
 		fmt.Printf("  key: %s\n", key)
-	} else if len(r.seenKeys) == 11 {
+	} else if len(r.seenKeys) == 41 {
 		fmt.Println("  (further distinct violations are counted but not printed)")
 	}
 	return true
@@ -201,7 +210,7 @@ func (r *Run) Finish() {
 	if r.Assumptions == nil {
 		out["assumptions"] = []string{}
 	}
-	dir := filepath.Join(Dir(), "evidence")
+	dir := filepath.Join(outDir(), "evidence")
 	_ = os.MkdirAll(dir, 0o755)
 	b, _ := json.MarshalIndent(out, "", " ")
 	if err := os.WriteFile(filepath.Join(dir, r.ID+".json"), b, 0o644); err != nil {
